@@ -195,7 +195,7 @@ Proof.
     assert (Hin : In t (fget (ix_find (z_idx z)) (nbu cs0 t))) by (apply Rin; split; auto).
     unfold fget in Hin. rewrite Hnone in Hin. destruct Hin. }
   (* decompose the chain around cur *)
-  destruct (inv_chain _ _ I) as (q & g & Hch).
+  destruct (inv_chain _ _ I) as (q & g & Hch). pose proof Hch as Hch0. fold cs0 in Hch0.
   destruct (in_split _ _ Hcur) as (l1 & l2 & Ehs).
   rewrite Ehs in Hch. apply chain_app_inv in Hch. destruct Hch as (m & p1 & f1 & Hch1 & Hch2).
   apply chain_cons_inv in Hch2. destruct Hch2 as (-> & J1 & J2 & J3 & J4 & J5).
@@ -244,11 +244,9 @@ Proof.
         + unfold cs1. cg. eqb_lia. repeat split; auto; lia.
       - apply in_range_false in Er. unfold cs1. cg. eqb_lia. repeat split; auto; lia. }
     set (hs' := l1 ++ m :: (m + req) :: l2).
-    set (z' := mkZone (z_n z) (z_unit z) cs4 _).
     exists m, hs'. split; auto.
     assert (Hnew_notin : ~ In (m + req) hs).
-    { intro Hi. pose proof (chain_sep _ _ _ _ _ _ _ _ m (m + req) (ex_proj2 (ex_proj2 (inv_chain _ _ I))) Hcur Hi ltac:(lia)).
-      fold cs0 in H. lia. }
+    { intro Hi. pose proof (chain_sep _ _ _ _ _ _ _ _ m (m + req) Hch0 Hcur Hi ltac:(lia)). lia. }
     assert (Hin' : forall t, In t hs' <-> In t hs \/ t = m + req).
     { intros t. unfold hs'. rewrite Ehs, !in_app_iff. cbn [In]. intuition. }
     (* new chain *)
@@ -258,14 +256,13 @@ Proof.
       - intros Hl2. destruct l2 as [|x l2']; [congruence|].
         apply chain_cons_inv in J5. destruct J5 as (-> & K1 & K2 & K3 & K4 & K5).
         specialize (Hb2 (m + k) (or_introl eq_refl)).
-        destruct (Cother (m + k)) as (A1 & A2 & A3 & A4); try lia.
+        destruct (Cother (m + k) ltac:(lia) ltac:(lia) ltac:(lia)) as (A1 & A2 & A3 & A4).
         repeat split; auto. rewrite A4; lia.
       - exists q', g'. unfold hs'. eapply chain_app.
-        + apply chain_ext with cs0; [exact Hch1|]. intros t Ht. specialize (Hb1 t Ht). apply Cother; lia.
+        + apply chain_ext with cs0; [exact Hch1|]. intros t Ht1. specialize (Hb1 t Ht1). apply Cother; lia.
         + constructor; rewrite ?Cm; cbn [c_st c_nbu c_nbp]; auto; try lia.
-          constructor; rewrite ?Cnew; cbn [c_st c_nbu c_nbp]; auto; try lia.
-          * intros H; discriminate.
-          * replace (m + req + (k - req)) with (m + k) by lia. exact Ht. }
+          constructor; rewrite ?Cnew; cbn [c_st c_nbu c_nbp]; auto; try lia; try (intros; discriminate).
+          replace (m + req + (k - req)) with (m + k) by lia. exact Ht. }
     constructor; cbn [z_n z_unit z_cells z_idx]; fold cs0; auto; try lia.
     + (* invariant *)
       constructor; cbn [z_n z_unit z_cells z_idx]; auto.
@@ -273,10 +270,10 @@ Proof.
         destruct (Z.eq_dec t m) as [->|Hne1]; [left; auto|].
         destruct (Z.eq_dec t (m + req)) as [->|Hne2]; [right; auto|].
         left. apply (inv_full_head _ _ I); auto. fold cs0.
-        destruct (Cother t) as (A1 & _); try lia. congruence.
+        destruct (Cother t ltac:(lia) ltac:(lia) ltac:(lia)) as (A1 & _). congruence.
       * apply (proj1 (malloc_index_split 0 (z_idx z) k m rest (k - req) (m + req) Hsorted ltac:(lia) ltac:(lia) Hfk)).
       * destruct (malloc_index_split 0 (z_idx z) k m rest (k - req) (m + req) Hsorted ltac:(lia) ltac:(lia) Hfk) as [_ Hview].
-        eapply rep_ext; [|intros x; symmetry; apply Hview|].
+        eapply rep_ext; [|intros x; apply Hview|].
         -- apply rep_add; [apply rep_del; [exact (inv_rep _ _ I)|]|].
            ++ split; auto.
            ++ intros [[Hi _] _]. auto.
@@ -285,7 +282,7 @@ Proof.
               ** assert (x <> m) by (intro; subst x; apply Hnot; split; auto; congruence).
                  assert (x <> m + req) by (intro; subst x; auto).
                  destruct (inv_head_range _ _ _ I Hx) as (Hx0 & _).
-                 destruct (Cother x) as (A1 & A2 & _); auto.
+                 destruct (Cother x ltac:(lia) ltac:(lia) ltac:(lia)) as (A1 & A2 & _).
                  split; [apply Hin'; auto|]. split; congruence.
               ** split; [apply Hin'; auto|]. rewrite Cnew. cbn. auto.
            ++ intros (Hx & Hxs & Hxn). apply Hin' in Hx.
@@ -295,9 +292,8 @@ Proof.
               destruct (Z.eq_dec x m) as [->|Hne1].
               { rewrite Cm in Hxs. cbn in Hxs. unfold FULL, EMPTY in Hxs. lia. }
               destruct (inv_head_range _ _ _ I Hx) as (Hx0 & _).
-              destruct (Cother x) as (A1 & A2 & _); auto.
+              destruct (Cother x ltac:(lia) ltac:(lia) ltac:(lia)) as (A1 & A2 & _).
               left. split; [split; [auto|split; congruence]|]. intros [_ ?]; auto.
-    + rewrite Hcnbu; lia.
     + apply Hin'; auto.
     + rewrite Cm; auto.
     + rewrite Cm; auto.
@@ -305,25 +301,25 @@ Proof.
       assert (t <> m) by (intro; subst t; unfold FULL, EMPTY in *; lia).
       assert (t <> m + req) by (intro; subst t; auto).
       destruct (inv_head_range _ _ _ I Ht) as (Ht0 & _).
-      destruct (Cother t) as (A1 & A2 & _); auto.
+      destruct (Cother t ltac:(lia) ltac:(lia) ltac:(lia)) as (A1 & A2 & _).
       split; [apply Hin'; auto|]. split; congruence.
     + intros t Ht Hfull Hne. apply Hin' in Ht.
       destruct (Z.eq_dec t (m + req)) as [->|Hne2].
       { rewrite Cnew in Hfull. cbn in Hfull. unfold FULL, EMPTY in Hfull. lia. }
       destruct Ht as [Ht|]; [|lia]. split; auto.
       destruct (inv_head_range _ _ _ I Ht) as (Ht0 & _).
-      destruct (Cother t) as (A1 & _); auto. congruence.
+      destruct (Cother t ltac:(lia) ltac:(lia) ltac:(lia)) as (A1 & _). congruence.
     + intros t Ht Hdef.
       destruct (Z.eq_dec t m) as [->|Hne1]; [rewrite Cm; cbn; auto|].
       destruct (Z.eq_dec t (m + req)) as [->|Hne2]; [rewrite Cnew; cbn; auto|].
-      destruct (Cother t) as (A1 & _); try lia. rewrite A1. auto.
+      destruct (Cother t ltac:(lia) ltac:(lia) ltac:(lia)) as (A1 & _). rewrite A1. auto.
     + unfold hs'. rewrite Ehs. rewrite !sum_units_app, !sum_units_cons, Cm, Cnew. cbn [c_st c_nbu].
       fold cs0. rewrite Hcst. unfold EMPTY, FULL. cbn [Z.eqb Pos.eqb].
       rewrite (sum_units_ext2 2 cs0 cs4 l1), (sum_units_ext2 2 cs0 cs4 l2); [lia| |].
-      * intros t Ht. specialize (Hb2 t Ht). destruct (Cother t) as (A1 & A2 & _); try lia. auto.
-      * intros t Ht. specialize (Hb1 t Ht). destruct (Cother t) as (A1 & A2 & _); try lia. auto.
+      * intros t Ht. specialize (Hb2 t Ht). destruct (Cother t ltac:(lia) ltac:(lia) ltac:(lia)) as (A1 & A2 & _). auto.
+      * intros t Ht. specialize (Hb1 t Ht). destruct (Cother t ltac:(lia) ltac:(lia) ltac:(lia)) as (A1 & A2 & _). auto.
   - (* exact fit *)
-    assert (Hk : k = req) by lia. subst k.
+    assert (Hk : k = req) by lia. rewrite Hk in *. clear Hk.
     cbv beta iota. split; auto.
     set (cs1 := cset cs0 m (with_st (cget cs0 m) FULL)).
     assert (Hlen1 : Z.of_nat (length cs1) = z_n z) by (unfold cs1; rewrite cset_length; auto).
@@ -337,9 +333,9 @@ Proof.
       - intros t Ht Hne. specialize (Hb2 t Ht). apply Cother; lia.
       - intros Hl2. destruct l2 as [|x l2']; [congruence|].
         apply chain_cons_inv in J5. destruct J5 as (-> & K1 & K2 & K3 & K4 & K5).
-        rewrite Cother by lia. repeat split; auto. intros; discriminate.
+        rewrite Cother by lia. repeat split; auto; intros; discriminate.
       - exists q', g'. rewrite Ehs. eapply chain_app.
-        + apply chain_ext with cs0; [exact Hch1|]. intros t Ht. specialize (Hb1 t Ht). apply Cother; lia.
+        + apply chain_ext with cs0; [exact Hch1|]. intros t Ht1. specialize (Hb1 t Ht1). apply Cother; lia.
         + constructor; rewrite ?Cm; cbn [c_st c_nbu c_nbp]; auto; try lia. }
     constructor; cbn [z_n z_unit z_cells z_idx]; fold cs0; auto; try lia.
     + constructor; cbn [z_n z_unit z_cells z_idx]; auto.
@@ -347,7 +343,7 @@ Proof.
         apply (inv_full_head _ _ I); auto. fold cs0. rewrite <- Cother by lia. auto.
       * apply (proj1 (malloc_index_nosplit 0 (z_idx z) req m rest Hsorted Hfk)).
       * destruct (malloc_index_nosplit 0 (z_idx z) req m rest Hsorted Hfk) as [_ Hview].
-        eapply rep_ext; [|intros x; symmetry; apply Hview|].
+        eapply rep_ext; [|intros x; apply Hview|].
         -- apply rep_del; [exact (inv_rep _ _ I)|]. split; auto.
         -- intros k' x. unfold FreeSeg. fold cs0. split.
            ++ intros [(Hx & Hxs & Hxn) Hnot].
@@ -360,8 +356,6 @@ Proof.
               destruct (inv_head_range _ _ _ I Hx) as (Hx0 & _).
               rewrite Cother in Hxs, Hxn by lia.
               split; [split; auto|]. intros [_ ?]; auto.
-    + lia.
-    + rewrite Cm; auto.
     + rewrite Cm; auto.
     + intros t Ht Hfull.
       assert (t <> m) by (intro; subst t; unfold FULL, EMPTY in *; lia).
